@@ -57,7 +57,11 @@ Inductive astep :=
 | ABcast (t : N)                 (* broadcastFunc(held) *)
 | APrepare (t : N) (k f : N)     (* the prepare-ballot paths (baseBallotHandler.makeINITBallot / makeACCEPTBallot /
                                     makeSuffrageConfirmBallot): reuse the ballot found at the lookup, else sign fact f *)
-| ASetPrepared (t : N).          (* Broadcast of the prepared ballot: the region under bb.l *)
+| ASetPrepared (t : N)           (* Broadcast of the prepared ballot: the region under bb.l *)
+(* the pool fails (closed while the node stops, storage error): the call returns an error *)
+| ALookupErr (t : N)             (* pool.Ballot of a caller fails: the caller gives up, nothing remembered *)
+| ASetErr (t : N) (b : ballot)   (* set(b) fails (SetBallot or the read-back): Broadcast returns the error, NOTHING is sent *)
+| ASetPreparedErr (t : N).       (* the same for a prepared ballot *)
 
 (* set: a ballot not signed by the local node is passed through; a local one is stored unless the pool
    already holds one for its key; what goes on is what the pool holds *)
@@ -106,7 +110,18 @@ Definition step (s : st) (a : astep) : st :=
   | ABcast t => do_bcast s t
   | APrepare t k f => do_prepare s t k f
   | ASetPrepared t => do_set_prepared s t
+  | ALookupErr t => mkSt (pl s) (pend s) (log s) (delp t (seen s)) (prep s) (signed s)
+  | ASetErr t b => note_signed (mkSt (pl s) (delp t (pend s)) (log s) (seen s) (prep s) (signed s)) b
+  | ASetPreparedErr t => mkSt (pl s) (delp t (pend s)) (log s) (seen s) (prep s) (signed s)
   end.
+
+(* the variant that keeps going after a pool error and sends the given ballot as it is *)
+Definition step_keep_going (s : st) (a : astep) : st :=
+  match a with
+  | ASetErr t b => note_signed (mkSt (pl s) ((t, b) :: delp t (pend s)) (log s) (seen s) (prep s) (signed s)) b
+  | _ => step s a
+  end.
+Definition run_keep_going (s : st) (l : list astep) : st := fold_left step_keep_going l s.
 
 Definition step_old (s : st) (a : astep) : st :=
   match a with
